@@ -43,20 +43,23 @@ def handle (line : String) : String :=
           i.nat? "crs", i.nat? "cws", i.nat? "srs", i.nat? "sws" with
     | some dc, some ds, some sc, some ss, some crs, some cws, some srs, some sws =>
       -- does the KEXINIT delivered to an endpoint carry the strict marker / ext-info-c?
-      let strictToClient := if mode == "mitm" then true else o.str "strict" == "1"
-      let strictToServer := if mode == "mitm" then true else o.str "strict" == "1"
-      let extInfo := if mode == "peerc" then o.str "extinfo" == "1" else true
+      let real2 := mode == "mitm" || mode == "rekey"        -- both endpoints are the real code
+      let strictToClient := if real2 then true else o.str "strict" == "1"
+      let strictToServer := if real2 then true else o.str "strict" == "1"
+      -- the server's EXT_INFO is written after NEWKEYS: not in the man-in-the-middle's plaintext log,
+      -- but in the recording transport's log of the rekey runs
+      let extInfo := if mode == "rekey" then false else if mode == "peerc" then o.str "extinfo" == "1" else true
       let cRes :=
-        if mode == "mitm" || mode == "peers" then
+        if real2 || mode == "peers" then
           judgeEndpoint "client" ⟨strictToClient, kexTypesFor m true⟩ (toTypes dc) (toTypes sc) 0
             (i.str "c") crs cws (i.str "cstrict")
         else if i.str "c" == "-" then none else some "client result in a server-only run"
       let sRes :=
-        if mode == "mitm" || mode == "peerc" then
+        if real2 || mode == "peerc" then
           judgeEndpoint "server" ⟨strictToServer, kexTypesFor m false⟩ (toTypes ds) (toTypes ss) (if extInfo then 1 else 0)
             (i.str "s") srs sws (i.str "sstrict")
         else if i.str "s" == "-" then none else some "server result in a client-only run"
-      if !(mode == "mitm" || mode == "peers" || mode == "peerc") then "bad-op" else
+      if !(real2 || mode == "peers" || mode == "peerc") then "bad-op" else
       match cRes, sRes with
       | none, none => "ok"
       | some e, _ => e
